@@ -243,7 +243,10 @@ def run_case(model, scratch, kind, idx, seed):
     os.makedirs(base, exist_ok=True)
     out = {"viol": [], "bump": [], "nontrivial": False, "key": (kind, seed), "count": 0, "sample": None}
     s = build(kind, name, seed, base)
-    payload = dict(s.describe(), replay_how="./check C02 --replay <this file> rebuilds the tree from (kind, scenario_seed) and re-runs it",
+    if kind.endswith("_stale"):
+        # the header's time stamp carries the local UTC offset: group and the dedupe command run in a zone east / west of UTC
+        s.tz = [None, "UTC-3", "UTC+5", "UTC-5:30"][(seed >> 7) % 4]
+    payload = dict(s.describe(), tz=getattr(s, "tz", None), replay_how="./check C02 --replay <this file> rebuilds the tree from (kind, scenario_seed) and re-runs it",
                    kind=kind, index=idx)
     try:
         groups = s.make_report()
@@ -276,7 +279,7 @@ def run_case(model, scratch, kind, idx, seed):
                     ("patterns", "+".join(k for k in ("keep_name", "keep_path", "name", "path") if s.sem[k]) or "-"),
                     ("cli_isolate", s.sem.get("iso_kind", "directed" if s.sem["iso"] else "-")), ("cli_match_links", int(s.sem["mlinks"])),
                     ("lock", "no-lock" if s.no_lock else "lock"), ("kind", kind if kind.startswith("random") else "directed"),
-                    ("stale_members", "+".join(sorted(h for h, _, _, _ in stale)) or "-")]
+                    ("stale_members", "+".join(sorted(h for h, _, _, _ in stale)) or "-"), ("TZ", getattr(s, "tz", None) or "unset")]
     if s.op == "move":
         out["bump"].append(("move_dir", ("inside" if s.move_dir.startswith(s.treedir) else "outside") + ("+other_mount" if s.fake_mount else "")))
     # (b) the independent oracle
